@@ -54,24 +54,34 @@ def _FAIL(ityp, otyp, source_expr=None):
     raise TypeMismatch(f"Can't convert {ityp} to {otyp}", source_expr)
 
 
-def _input_types(*allowed_types):
+def _input_types(*allowed_types, check=None):
+    # `check(expr, arg_typ, out_typ)`: the converter's further restrictions
+    # on the types (it only looks at types, so that the type checker can
+    # apply it too, cf. `validate_convert_types`)
     def decorator(f):
-        @functools.wraps(f)
-        def check_input_type(expr, arg, out_typ):
-            # convert arg to out_typ.
-            # (expr is the AST corresponding to `arg`)
-            ok = isinstance(arg.typ, allowed_types)
+        def validate_types(expr, arg_typ, out_typ):
+            ok = isinstance(arg_typ, allowed_types)
             if not ok:
-                _FAIL(arg.typ, out_typ, expr)
+                _FAIL(arg_typ, out_typ, expr)
 
             # user safety: disallow convert from type to itself
             # note allowance of [u]int256; this is due to type inference
             # on literals not quite working yet.
-            if arg.typ == out_typ and arg.typ not in (UINT256_T, INT256_T):
+            if arg_typ == out_typ and arg_typ not in (UINT256_T, INT256_T):
                 raise InvalidType(f"value and target are both {out_typ}", expr)
+
+            if check is not None:
+                check(expr, arg_typ, out_typ)
+
+        @functools.wraps(f)
+        def check_input_type(expr, arg, out_typ):
+            # convert arg to out_typ.
+            # (expr is the AST corresponding to `arg`)
+            validate_types(expr, arg.typ, out_typ)
 
             return f(expr, arg, out_typ)
 
+        check_input_type.validate_types = validate_types
         return check_input_type
 
     return decorator
@@ -203,10 +213,10 @@ def _int_to_int(arg, out_typ):
     return IRnode.from_list(arg, typ=out_typ)
 
 
-def _check_bytes(expr, arg, output_type, max_bytes_allowed):
-    if isinstance(arg.typ, _BytestringT):
-        if arg.typ.maxlen > max_bytes_allowed:
-            _FAIL(arg.typ, output_type, expr)
+def _check_bytes(expr, arg_typ, output_type, max_bytes_allowed):
+    if isinstance(arg_typ, _BytestringT):
+        if arg_typ.maxlen > max_bytes_allowed:
+            _FAIL(arg_typ, output_type, expr)
     else:
         # sanity check. should not have conversions to non-base types
         assert output_type.memory_bytes_required == 32
@@ -328,10 +338,12 @@ def validate_literal_convert(expr, arg_typ, out_typ):
 
 
 # any base type or bytes/string
-@_input_types(IntegerT, DecimalT, BytesM_T, AddressT, BoolT, BytesT, StringT)
-def to_bool(expr, arg, out_typ):
-    _check_bytes(expr, arg, out_typ, 32)  # should we restrict to Bytes[1]?
+def _check_to_bool(expr, arg_typ, out_typ):
+    _check_bytes(expr, arg_typ, out_typ, 32)  # should we restrict to Bytes[1]?
 
+
+@_input_types(IntegerT, DecimalT, BytesM_T, AddressT, BoolT, BytesT, StringT, check=_check_to_bool)
+def to_bool(expr, arg, out_typ):
     if isinstance(arg.typ, _BytestringT):
         # no clamp. checks for any nonzero bytes.
         arg = _bytes_to_num(arg, out_typ, signed=False)
@@ -342,19 +354,26 @@ def to_bool(expr, arg, out_typ):
     return IRnode.from_list(["iszero", ["iszero", arg]], typ=out_typ)
 
 
-@_input_types(IntegerT, DecimalT, BytesM_T, AddressT, BoolT, FlagT, BytesT)
+def _check_to_int(expr, arg_typ, out_typ):
+    _check_bytes(expr, arg_typ, out_typ, 32)
+
+    if arg_typ == AddressT() and out_typ.is_signed:
+        # (also for address literals, before the literal shortcut)
+        _FAIL(arg_typ, out_typ, expr)
+
+    if is_flag_type(arg_typ) and out_typ != UINT256_T:
+        _FAIL(arg_typ, out_typ, expr)
+
+
+@_input_types(IntegerT, DecimalT, BytesM_T, AddressT, BoolT, FlagT, BytesT, check=_check_to_int)
 def to_int(expr, arg, out_typ):
     return _to_int(expr, arg, out_typ)
 
 
 # an internal version of to_int without input validation
+# (the caller has applied `_check_to_int`)
 def _to_int(expr, arg, out_typ):
     assert out_typ.bits % 8 == 0
-    _check_bytes(expr, arg, out_typ, 32)
-
-    if arg.typ == AddressT() and out_typ.is_signed:
-        # (also for address literals, before the literal shortcut below)
-        _FAIL(arg.typ, out_typ, expr)
 
     if isinstance(expr, vy_ast.Constant):
         return _literal_int(expr, arg.typ, out_typ)
@@ -375,9 +394,7 @@ def _to_int(expr, arg, out_typ):
         arg = _fixed_to_int(arg, out_typ)
 
     elif is_flag_type(arg.typ):
-        if out_typ != UINT256_T:
-            _FAIL(arg.typ, out_typ, expr)
-        # pretend flag is uint256
+        # (only to uint256, cf. `_check_to_int`) pretend flag is uint256
         arg = IRnode.from_list(arg, typ=UINT256_T)
         # use int_to_int rules
         arg = _int_to_int(arg, out_typ)
@@ -395,10 +412,12 @@ def _to_int(expr, arg, out_typ):
     return IRnode.from_list(arg, typ=out_typ)
 
 
-@_input_types(IntegerT, BoolT, BytesM_T, BytesT)
-def to_decimal(expr, arg, out_typ):
-    _check_bytes(expr, arg, out_typ, 32)
+def _check_to_decimal(expr, arg_typ, out_typ):
+    _check_bytes(expr, arg_typ, out_typ, 32)
 
+
+@_input_types(IntegerT, BoolT, BytesM_T, BytesT, check=_check_to_decimal)
+def to_decimal(expr, arg, out_typ):
     if isinstance(expr, vy_ast.Constant):
         return _literal_decimal(expr, arg.typ, out_typ)
 
@@ -432,10 +451,23 @@ def to_decimal(expr, arg, out_typ):
         raise CompilerPanic("unreachable")
 
 
-@_input_types(IntegerT, DecimalT, BytesM_T, AddressT, BytesT, BoolT, FlagT)
-def to_bytes_m(expr, arg, out_typ):
-    _check_bytes(expr, arg, out_typ, max_bytes_allowed=out_typ.m)
+def _check_to_bytes_m(expr, arg_typ, out_typ):
+    _check_bytes(expr, arg_typ, out_typ, max_bytes_allowed=out_typ.m)
 
+    if is_integer_type(arg_typ) or arg_typ == AddressT() or is_decimal_type(arg_typ):
+        int_bits = 160 if arg_typ == AddressT() else arg_typ.bits
+        if out_typ.m_bits < int_bits:
+            # question: allow with runtime clamp?
+            # arg = int_clamp(m_bits, signed=arg.typ.signed)
+            _FAIL(arg_typ, out_typ, expr)
+
+    elif is_flag_type(arg_typ):
+        if out_typ.m_bits != 256:
+            _FAIL(arg_typ, out_typ, expr)
+
+
+@_input_types(IntegerT, DecimalT, BytesM_T, AddressT, BytesT, BoolT, FlagT, check=_check_to_bytes_m)
+def to_bytes_m(expr, arg, out_typ):
     if isinstance(arg.typ, BytesT):
         bytes_val = LOAD(bytes_data_ptr(arg))
 
@@ -452,36 +484,19 @@ def to_bytes_m(expr, arg, out_typ):
         if arg.typ.m > out_typ.m:
             arg = bytes_clamp(arg, out_typ.m)
 
-    elif is_integer_type(arg.typ) or arg.typ == AddressT():
-        if arg.typ == AddressT():
-            int_bits = 160
-        else:
-            int_bits = arg.typ.bits
-
-        if out_typ.m_bits < int_bits:
-            # question: allow with runtime clamp?
-            # arg = int_clamp(m_bits, signed=arg.typ.signed)
-            _FAIL(arg.typ, out_typ, expr)
-
-        # note: neg numbers not OOB. keep sign bit
-        arg = shl(256 - out_typ.m_bits, arg)
-
-    elif is_decimal_type(arg.typ):
-        if out_typ.m_bits < arg.typ.bits:
-            _FAIL(arg.typ, out_typ, expr)
-
+    elif is_integer_type(arg.typ) or arg.typ == AddressT() or is_decimal_type(arg.typ):
+        # (fits in out_typ, cf. `_check_to_bytes_m`)
         # note: neg numbers not OOB. keep sign bit
         arg = shl(256 - out_typ.m_bits, arg)
 
     elif is_flag_type(arg.typ):
-        if out_typ.m_bits != 256:
-            _FAIL(arg.typ, out_typ, expr)
-
+        # (out_typ is bytes32, cf. `_check_to_bytes_m`)
         # leave `arg` as-is, equivalent to the way we treat uin256:
         # arg = shl(256 - out_typ.m_bits, arg)
         # => arg = shl(256 - 256, arg)
         # => arg = shl(0, arg)
         # => arg = arg
+        pass
 
     else:
         # bool
@@ -490,25 +505,31 @@ def to_bytes_m(expr, arg, out_typ):
     return IRnode.from_list(arg, typ=out_typ)
 
 
-@_input_types(BytesM_T, IntegerT, BytesT)
-def to_address(expr, arg, out_typ):
+def _check_to_address(expr, arg_typ, out_typ):
     # question: should this be allowed?
-    if is_integer_type(arg.typ):
-        if arg.typ.is_signed:
-            _FAIL(arg.typ, out_typ, expr)
+    if is_integer_type(arg_typ):
+        if arg_typ.is_signed:
+            _FAIL(arg_typ, out_typ, expr)
 
+    _check_to_int(expr, arg_typ, UINT160_T)
+
+
+@_input_types(BytesM_T, IntegerT, BytesT, check=_check_to_address)
+def to_address(expr, arg, out_typ):
     ret = _to_int(expr, arg, UINT160_T)
     return IRnode.from_list(ret, out_typ)
 
 
-def _cast_bytestring(expr, arg, out_typ):
+def _check_cast_bytestring(expr, arg_typ, out_typ):
     # ban converting Bytes[20] to Bytes[21]
-    if isinstance(arg.typ, out_typ.__class__) and arg.typ.maxlen <= out_typ.maxlen:
-        _FAIL(arg.typ, out_typ, expr)
+    if isinstance(arg_typ, out_typ.__class__) and arg_typ.maxlen <= out_typ.maxlen:
+        _FAIL(arg_typ, out_typ, expr)
     # can't downcast literals with known length (e.g. b"abc" to Bytes[2])
-    if isinstance(expr, vy_ast.Constant) and arg.typ.maxlen > out_typ.maxlen:
-        _FAIL(arg.typ, out_typ, expr)
+    if isinstance(expr, vy_ast.Constant) and arg_typ.maxlen > out_typ.maxlen:
+        _FAIL(arg_typ, out_typ, expr)
 
+
+def _cast_bytestring(expr, arg, out_typ):
     ret = ["seq"]
     if out_typ.maxlen < arg.typ.maxlen:
         ret.append(["assert", ["le", get_bytearray_length(arg), out_typ.maxlen]])
@@ -518,25 +539,59 @@ def _cast_bytestring(expr, arg, out_typ):
 
 
 # question: should we allow bytesM -> String?
-@_input_types(BytesT, StringT)
+@_input_types(BytesT, StringT, check=_check_cast_bytestring)
 def to_string(expr, arg, out_typ):
     return _cast_bytestring(expr, arg, out_typ)
 
 
-@_input_types(StringT, BytesT)
+@_input_types(StringT, BytesT, check=_check_cast_bytestring)
 def to_bytes(expr, arg, out_typ):
     return _cast_bytestring(expr, arg, out_typ)
 
 
-@_input_types(IntegerT)
-def to_flag(expr, arg, out_typ):
-    if arg.typ != UINT256_T:
-        _FAIL(arg.typ, out_typ, expr)
+def _check_to_flag(expr, arg_typ, out_typ):
+    if arg_typ != UINT256_T:
+        _FAIL(arg_typ, out_typ, expr)
 
+
+@_input_types(IntegerT, check=_check_to_flag)
+def to_flag(expr, arg, out_typ):
     if len(out_typ._flag_members) < 256:
         arg = int_clamp(arg, bits=len(out_typ._flag_members), signed=False)
 
     return IRnode.from_list(arg, typ=out_typ)
+
+
+def _converter_for(out_typ):
+    if out_typ == BoolT():
+        return to_bool
+    if out_typ == AddressT():
+        return to_address
+    if is_flag_type(out_typ):
+        return to_flag
+    if is_integer_type(out_typ):
+        return to_int
+    if is_bytes_m_type(out_typ):
+        return to_bytes_m
+    if is_decimal_type(out_typ):
+        return to_decimal
+    if isinstance(out_typ, BytesT):
+        return to_bytes
+    if isinstance(out_typ, StringT):
+        return to_string
+    return None
+
+
+def validate_convert_types(expr, arg_typ, out_typ):
+    """
+    Called by the type checker on `convert(<expr>, <out_typ>)`: apply the
+    converter's restrictions on the argument type ("Can't convert X to Y"),
+    so that a program accepted by semantic analysis is not rejected by
+    code generation.
+    """
+    converter = _converter_for(out_typ)
+    if converter is not None:
+        converter.validate_types(expr, arg_typ, out_typ)
 
 
 def convert(expr, context):
@@ -555,24 +610,10 @@ def convert(expr, context):
     if arg.typ._is_prim_word:
         arg = unwrap_location(arg)
     with arg.cache_when_complex("arg") as (b, arg):
-        if out_typ == BoolT():
-            ret = to_bool(arg_ast, arg, out_typ)
-        elif out_typ == AddressT():
-            ret = to_address(arg_ast, arg, out_typ)
-        elif is_flag_type(out_typ):
-            ret = to_flag(arg_ast, arg, out_typ)
-        elif is_integer_type(out_typ):
-            ret = to_int(arg_ast, arg, out_typ)
-        elif is_bytes_m_type(out_typ):
-            ret = to_bytes_m(arg_ast, arg, out_typ)
-        elif is_decimal_type(out_typ):
-            ret = to_decimal(arg_ast, arg, out_typ)
-        elif isinstance(out_typ, BytesT):
-            ret = to_bytes(arg_ast, arg, out_typ)
-        elif isinstance(out_typ, StringT):
-            ret = to_string(arg_ast, arg, out_typ)
-        else:
+        converter = _converter_for(out_typ)
+        if converter is None:
             raise StructureException(f"Conversion to {out_typ} is invalid.", arg_ast)
+        ret = converter(arg_ast, arg, out_typ)
 
         # test if arg actually changed. if not, we do not need to use
         # unwrap_location (this can reduce memory traffic for downstream
